@@ -52,6 +52,43 @@ def circuits(rng, n_extra=0):
     return out
 
 
+def impl_challenges(ctx, verify_reqs):
+    """the challenges the REAL verifier derives for `verify …` requests (hook verif::take_verifier_challenges, harness command
+    `vchals`): list of dicts name -> int (empty dict when the verifier did not get that far). Forgeries are built for THESE
+    challenges, so they stay valid when the implementation's transcript differs from the model's."""
+    outs = ctx.impl(["vchals " + r.split(" ", 1)[1] for r in verify_reqs])
+    res = []
+    for o in outs:
+        d = {}
+        for t in o.split():
+            if "=" in t:
+                k, v = t.split("=", 1)
+                try:
+                    d[k] = int(v, 16)
+                except ValueError:
+                    pass
+        res.append(d)
+    return res
+
+
+def challenge_correspondence(ctx, lines, limit=6):
+    """the challenges of the real verifier (hook) == the challenges of the Lean model's transcript, on honest statements"""
+    honest = [l for l in lines if l.split(" ", 1)[0] == "expect-ok:honest"][:limit]
+    if not honest:
+        return 0
+    ics = impl_challenges(ctx, [l.split(" ", 1)[1] for l in honest])
+    ans = ctx.model(["chals " + l.split(" ", 2)[2] for l in honest])
+    for l, ic, a in zip(honest, ics, ans):
+        d = dict(t.split("=", 1) for t in a.split() if "=" in t)
+        bad = [k for k in ("z", "u", "v", "vw", "alpha", "beta", "gamma") if k in d and ic.get(k) != int(d[k], 16)]
+        if bad or "z" not in ic:
+            ctx.violation("correspondence:challenges", {"kind": "model-vs-implementation", "why": "the real verifier's challenges differ from "
+                          "the model transcript's: " + ",".join(bad or ["none recorded"]), "request": l[:600],
+                          "impl": {k: "%x" % v for k, v in ic.items()}, "model": a[:600]}, no_input=True)
+            break
+    return len(honest)
+
+
 def shifted_openings(ctx, lines, limit=4):
     """Frozen-heart style forgery against the batching challenge `u`: from an honest proof build
          W_z'  = W_z  + [u (x - z w)] G,      W_zw' = W_zw - [x - z] G
@@ -72,6 +109,9 @@ def shifted_openings(ctx, lines, limit=4):
         toks = l.split(" ")
         x = int(toks[3], 16); proof = bytes.fromhex(toks[-1])
         z, u, om = int(d["z"], 16), int(d["u"], 16), int(d["omega"], 16)
+        ic = impl_challenges(ctx, [l.split(" ", 1)[1]])[0]
+        if "z" in ic and "u" in ic:
+            z, u = ic["z"], ic["u"]
         g = d["g"]
         wz, wzw = proof[9 * 48:10 * 48].hex(), proof[10 * 48:11 * 48].hex()
         a1 = u * ((x - z * om) % R) % R
@@ -98,7 +138,10 @@ def unbound_key_commitments(ctx, lines, limit=2, slots=range(15)):
     honest = [l for l in lines if l.split(" ", 1)[0] == "expect-ok:honest" and l.split(" ")[2] in ("3", "v3", "V3")][:limit]
     if not honest:
         honest = [l for l in lines if l.split(" ", 1)[0] == "expect-ok:honest"][:limit]
-    reqs = ["vkscalars " + l.split(" ", 2)[2] for l in honest]
+    ics = impl_challenges(ctx, [l.split(" ", 1)[1] for l in honest])
+    def ovr(ic):
+        return "".join(" %s=%x" % (k, ic[k]) for k in ("alpha", "beta", "gamma", "rsep", "lsep", "fsep", "vsep", "z", "v", "vw", "u") if k in ic)
+    reqs = ["vkscalars " + l.split(" ", 2)[2] + ovr(ic) for l, ic in zip(honest, ics)]
     ans = ctx.model(reqs)
     for l, a in zip(honest, ans):
         d = dict(t.split("=", 1) for t in a.split() if "=" in t)
@@ -148,6 +191,9 @@ def compensated_public_inputs(ctx, lines, limit=2):
         vbytes = bytes.fromhex(toks[4])
         pis = [int(t, 16) for t in toks[5].split(",")]
         z, n, om = int(d["z"], 16), int(d["n"]), int(d["omega"], 16)
+        ic = impl_challenges(ctx, [l.split(" ", 1)[1]])[0]
+        if "z" in ic:
+            z = ic["z"]
         npi = int.from_bytes(vbytes[24:32], "big")
         if npi != len(pis) or npi < 2:
             continue
